@@ -58,17 +58,33 @@ def _states(ctx, rng):
         yield gen.random_state(rng)
 
 
+PROFILES = {
+    None: None,
+    # presets only: no custom fan speed, no eco/turbo/freeze, few modes
+    "presets-only": [(0x0210, b"\x05"), (0x0214, b"\x02"), (0x0215, b"\x02"), (0x0212, b"\x00"), (0x021A, b"\x02"), (0x0213, b"\x00"),
+                     (0x0225, bytes([34, 60, 34, 60, 34, 60, 0]))],
+    "full": [(0x0210, b"\x01"), (0x0214, b"\x09"), (0x0215, b"\x01"), (0x0212, b"\x01"), (0x021A, b"\x01"), (0x0213, b"\x01"), (0x021F, b"\x02"),
+             (0x0219, b"\x01"), (0x0043, b"\x01"), (0x0048, b"\x02"), (0x00E3, b"\x01"), (0x0009, b"\x01"), (0x000A, b"\x01"), (0x0039, b"\x01")],
+}
+
+
 def generate(ctx, rng):
     batch = []
     n = 0
+    profiles = [None, None, "presets-only", "full"]
     for st in _states(ctx, rng):
         batch.append(st)
         if len(batch) == BATCH:
-            yield ("batch", n), {"states": batch}
+            yield ("batch", n), {"states": batch, "profile": profiles[n % 4], "pending": n % 3 == 1, "pseed": rng.getrandbits(32)}
             n += 1
             batch = []
     if batch:
-        yield ("batch", n), {"states": batch}
+        yield ("batch", n), {"states": batch, "profile": None, "pending": False, "pseed": 1}
+    # apply() issued while a refresh() of the same object is still waiting for its reply
+    for j in range(60 if ctx.tier == "quick" else 4000):
+        yield ("overlap", j), {"kind": "overlap", "start": gen.random_state(rng), "state": gen.random_state(rng),
+                               "reply_delay": rng.choice([0.3, 0.5, 1.2]), "apply_at": rng.choice([0.05, 0.1, 0.25]),
+                               "version": rng.choice([2, 3])}
 
 
 _SEEN = {}
@@ -79,16 +95,43 @@ def setup(ctx):
 
 
 def run_case(ctx, case):
+    if case.get("kind") == "overlap":
+        return _overlap(ctx, case)
+    import random
     states = case["states"]
     net = H.new_net()
     dev = SimDevice(net, version=2, device_id=0xABCDEF)
+    profile = PROFILES.get(case.get("profile"))
+    if profile is not None:
+        dev.ac.caps_pages = [profile]
+    pr = random.Random(case.get("pseed", 0))
     results = []
+
+    def touch_properties(ac):
+        """Other (property-protocol) settings changed since the last apply: they are not part of the control body."""
+        k = pr.randrange(6)
+        if k == 0:
+            ac.rate_select = pr.choice(AC.RateSelect.list())
+        elif k == 1:
+            ac.ieco = pr.random() < 0.5
+        elif k == 2:
+            ac.vertical_swing_angle = pr.choice(AC.SwingAngle.list())
+        elif k == 3:
+            ac.horizontal_swing_angle = pr.choice(AC.SwingAngle.list())
+        elif k == 4:
+            ac.breezeless = pr.random() < 0.5
+        else:
+            ac.breeze_away = pr.random() < 0.5
 
     async def go(loop):
         ac = AC(ip=dev.host, port=dev.port, device_id=dev.device_id)
+        if profile is not None:
+            await ac.get_capabilities()
         for st in states:
             n0 = len(dev.ac.controls)
             gen.apply_to_ac(ac, st)
+            if case.get("pending") and pr.random() < 0.6:
+                touch_properties(ac)
             try:
                 await ac.apply()
             except Exception as e:  # noqa: BLE001
@@ -99,8 +142,9 @@ def run_case(ctx, case):
 
     H.run_virtual(go, net)
     for st, status, val in results:
-        key = gen.state_key(st)
-        ctx.count(key, kind="apply", sample=st if st["target_temperature"] > 30 else None)
+        key = gen.state_key(st) + (case.get("profile"), bool(case.get("pending")))
+        ctx.count(key, kind="apply" + ("+" + case["profile"] if case.get("profile") else "") + ("+pending-props" if case.get("pending") else ""),
+                  sample=st if st["target_temperature"] > 30 else None)
         if status == "raised":
             ctx.violation("apply-raises", f"apply() raised {type(val).__name__}: {val}", {"states": [st]})
             continue
@@ -117,7 +161,60 @@ def run_case(ctx, case):
             ctx.violation(f"field-{f0}", f"control body decodes to a different state: {diffs}", {"states": [st]}, {"body": body, "diffs": diffs})
         if got.get("aux_both"):
             ctx.violation("field-aux", "both aux-heat bits set", {"states": [st]}, {"body": body})
-        prev = _SEEN.setdefault(bytes(body), key)
-        if prev != key:
+        prev = _SEEN.setdefault(bytes(body), key[:len(gen.FIELDS)])
+        if prev != key[:len(gen.FIELDS)]:
             ctx.violation("not-injective", "two distinct requested states produced the same command body", {"states": [st]},
                           {"body": body, "other_state": dict(zip(gen.FIELDS, prev))})
+
+
+def _overlap(ctx, case):
+    """refresh() is waiting for its (slow) reply when the user sets a new state and calls apply() on the same object."""
+    import asyncio
+    from ..simdev import ACModel
+    from ..ref import acframe
+    version = case["version"]
+    token, key = bytes(range(64)), bytes(range(32))
+    net = H.new_net()
+    start = {**acstate.default_state(), **{k: v for k, v in case["start"].items() if k in acstate.FIELDS}}
+    model = ACModel(start)
+    dev = SimDevice(net, version=version, token=token, key=key, device_id=0xABC, ac=model)
+    st = case["state"]
+    slow = {"on": False}
+
+    def on_exchange(conn, req, packets, meta):
+        if slow["on"] and acframe.parse_command(req)["body"][0] == 0x41:
+            slow["on"] = False
+            return [(case["reply_delay"], p) for p in packets]
+        return None
+
+    dev.on_exchange = on_exchange
+
+    async def go(loop):
+        ac = AC(ip=dev.host, port=dev.port, device_id=dev.device_id)
+        if version == 3:
+            await ac.authenticate(token, key)
+        await ac.refresh()
+        slow["on"] = True
+        t = asyncio.ensure_future(ac.refresh())
+        await asyncio.sleep(case["apply_at"])
+        gen.apply_to_ac(ac, st)
+        n0 = len(model.controls)
+        await ac.apply()
+        await t
+        return model.controls[n0:]
+
+    k = ("overlap", version, gen.state_key(st), case["reply_delay"], case["apply_at"])
+    try:
+        controls, loop = H.run_virtual(go, net)
+    except Exception as e:  # noqa: BLE001
+        ctx.count(k, kind="overlap-raised")
+        ctx.violation(f"overlap-raises/{type(e).__name__}", f"{type(e).__name__}: {e}", case)
+        return
+    ctx.count(k, kind="apply-overlapping-refresh", sample={"version": version, "reply_delay": case["reply_delay"], "apply_at": case["apply_at"]})
+    if len(controls) != 1:
+        ctx.violation("control-not-received", f"{len(controls)} control commands reached the device for one apply() overlapping a refresh()", case)
+        return
+    got = acstate.decode_0x40(controls[0])
+    diffs = {f: (st[f], got[f]) for f in gen.FIELDS if got[f] != st[f]}
+    if diffs:
+        ctx.violation("overlap-field-" + sorted(diffs)[0], f"apply() issued while a refresh() was in flight encoded {diffs}", case)
